@@ -737,6 +737,20 @@ public:
             o["callee"] = qualName(fd);
             maybeEnqueueNewHelper(fd);
             if (fd->isNoReturn()) o["noreturn"] = true;
+            // template arguments of a called function template specialisation (integral / type arguments, printed)
+            if (auto const* tal = fd->getTemplateSpecializationArgs())
+            {
+                json::Array tas;
+                for (auto const& ta : tal->asArray())
+                {
+                    std::string str;
+                    llvm::raw_string_ostream os(str);
+                    ta.print(ctx.getPrintingPolicy(), os, true);
+                    os.flush();
+                    tas.push_back(str);
+                }
+                o["targs"] = std::move(tas);
+            }
             if (auto const* md = dyn_cast<CXXMethodDecl>(fd))
             {
                 if (md->isVirtual()) o["virtual"] = true;
